@@ -285,6 +285,32 @@ def _is_push(call: ast.Call) -> bool:
     return isinstance(call.func, ast.Attribute) and call.func.attr == 'push' and (core.dotted(call.func) or '').endswith('symbols.push')
 
 
+def context_isolation(ctx) -> None:
+    """Every (nested) statement is parsed in a context of its own: entering pushes the current context and installs a *fresh*
+    one; the per-statement tables (symbols, push-down segments, opened origins, alias depth) are bound in Context.__init__
+    and never re-bound from another context (a shared ``origins`` dict leaks a nested statement's aliases into its parent)."""
+    prog = ctx.prog
+    enter = prog.func(f'{PARSER}:Container.__enter__').inlined()
+    body = [core.src(st) for st in enter.node.body if not (isinstance(st, ast.Expr) and isinstance(st.value, ast.Constant))]
+    ctx.check(body == ['self._stack.append(self._context)', 'self._context = self.Context()', 'return self'], 'C06.context', enter, f'__enter__ pushes the current context and installs a fresh, empty one ({body})', enter.node, key='enter:fresh')
+    ex = prog.func(f'{PARSER}:Container.__exit__')
+    shared.stmt_under(ctx, 'C06.context', ex, 'self._context = self._stack.pop()', [('exc_type or exc_val or exc_tb', False), ('self._context and self._context.dirty', False)], 'a clean exit restores the enclosing context', 'exit:restore')
+    cinit = prog.func(f'{PARSER}:Container.Context.__init__')
+    fields = sorted(t.attr for st in cinit.body if isinstance(st, (ast.Assign, ast.AnnAssign)) for t in ([st.target] if isinstance(st, ast.AnnAssign) else st.targets) if isinstance(t, ast.Attribute) and core.src(t.value) == 'self')
+    ctx.floor('C06.context-fields', len(fields), 3)
+    n = 0
+    for fn in prog.functions([m for m in prog.modules if m.startswith(('forml.io.dsl.parser', 'forml.provider.feed'))]):
+        if fn.ref == cinit.ref:
+            continue
+        for st in core.walk_local(fn.node):
+            if isinstance(st, (ast.Assign, ast.AnnAssign)):
+                for t in ([st.target] if isinstance(st, ast.AnnAssign) else st.targets):
+                    if isinstance(t, ast.Attribute) and t.attr in fields and 'context' in core.src(t.value).lower() and t.attr != 'aliased':
+                        n += 1
+                        ctx.fail('C06.context', fn, f'`{core.src(st)[:80]}` re-binds the per-statement table `{t.attr}` of a context outside Context.__init__', st)
+    ctx.ok('C06.context', PARSER, f'context tables {fields} are bound in Context.__init__ only ({n} re-bindings elsewhere)')
+
+
 def automaton(ctx) -> None:
     prog = ctx.prog
     visitor = prog.cls(f'{PARSER}:Visitor')
@@ -460,6 +486,8 @@ def run(ctx) -> None:
     from . import C14
 
     C14.own_key_rule(ctx, 'C06.parse-never-fails')
+    C14.logical_factors(ctx)
+    context_isolation(ctx)
     C14.lazy_columns(ctx)
     from . import C08
 
